@@ -521,10 +521,10 @@ func (Area) Gen(r *rand.Rand, tier string, emit func(string)) {
 	disp("GET", "", nil)
 	disp("POST", "a=1", [][2]string{{"Content-Type", "application/json"}})
 	disp("GET", "_metadata[x-a]=1&b=2", hs)
-	disp("GET", "", append([][2]string{{"Connection", "keep-alive, Upgrade"}, {"Upgrade", "websocket"}}, hs[2:]...))                      // Firefox
-	disp("GET", "", append([][2]string{{"Connection", "keep-alive"}, {"Connection", "Upgrade"}, {"Upgrade", "websocket"}}, hs[2:]...))    // split lines
-	disp("GET", "", append(append([][2]string{}, hs...), [2]string{"Sec-WebSocket-Protocol", "grpc-websockets"}))                          // improbable-eng client
-	disp("GET", "", append(append([][2]string{}, hs...), [2]string{"Sec-WebSocket-Protocol", "foo, grpc-websockets"}))                     // list-valued offer
+	disp("GET", "", append([][2]string{{"Connection", "keep-alive, Upgrade"}, {"Upgrade", "websocket"}}, hs[2:]...))                   // Firefox
+	disp("GET", "", append([][2]string{{"Connection", "keep-alive"}, {"Connection", "Upgrade"}, {"Upgrade", "websocket"}}, hs[2:]...)) // split lines
+	disp("GET", "", append(append([][2]string{}, hs...), [2]string{"Sec-WebSocket-Protocol", "grpc-websockets"}))                      // improbable-eng client
+	disp("GET", "", append(append([][2]string{}, hs...), [2]string{"Sec-WebSocket-Protocol", "foo, grpc-websockets"}))                 // list-valued offer
 	disp("GET", "", append(append([][2]string{}, hs...), [2]string{"Sec-WebSocket-Protocol", "foo"}, [2]string{"Sec-WebSocket-Protocol", "grpc-websockets"}))
 	disp("POST", "", [][2]string{{"Content-Type", "application/grpc-web+proto"}})
 	disp("POST", "", [][2]string{{"Content-Type", "application/grpc-web"}})
@@ -634,11 +634,11 @@ func (Area) Gen(r *rand.Rand, tier string, emit func(string)) {
 	for _, via := range []string{"direct", "bridge"} {
 		wsmd(via, "", nil)
 		wsmd(via, "_metadata[x-a]=1&b=2", nil)
-		wsmd(via, "_metadata[authorization]=Bearer+q", [][2]string{{"Authorization", "Bearer h"}})                 // colliding name: both must arrive, query first
+		wsmd(via, "_metadata[authorization]=Bearer+q", [][2]string{{"Authorization", "Bearer h"}}) // colliding name: both must arrive, query first
 		wsmd(via, "_metadata[Authorization]=q1&_metadata[Authorization]=q2", [][2]string{{"authorization", "h1"}, {"AUTHORIZATION", "h2"}})
 		wsmd(via, "_metadata[grpc-timeout]=10S", [][2]string{{"Grpc-Timeout", "20S"}})
 		wsmd(via, "_metadata[x-only-query]=q", [][2]string{{"X-Only-Header", "h"}})
-		wsmd(via, "_metadata[upgrade]=q&_metadata[connection]=q", nil)                                              // colliding with the handshake's own headers
+		wsmd(via, "_metadata[upgrade]=q&_metadata[connection]=q", nil) // colliding with the handshake's own headers
 		wsmd(via, "_metadata[sec-websocket-key]=q", nil)
 	}
 	nWS := 500
@@ -696,6 +696,24 @@ func (Area) Gen(r *rand.Rand, tier string, emit func(string)) {
 			disp("GET", seg, nil)
 			wsmd("bridge", "a=1&"+seg+"&_metadata[x-z]=z", nil)
 		}
+	}
+	// RAW header bytes: the header block is written verbatim on a TCP connection to a real net/http server in front of the
+	// real WebBridge; the driver runs the model of textproto.ReadMIMEHeader + net/http's checks (GB/C07/Wire.lean) on the
+	// same bytes.  Irregular lines: continuation lines, a name with a trailing SP, empty name, missing colon, CTL / NUL /
+	// non-ASCII bytes in names and values, bare LF and stray CR, a second line smuggled in through a value, OWS around values.
+	wireIrregular := [][2]string{
+		{"Connection", "keep-alive,\r\n Upgrade"}, {"Connection", "keep-alive\r\n\t, upgrade"}, {"Connection", "Upgrade\r\n\tx"}, {"Connection", "Up\r\n grade"},
+		{"Connection ", "Upgrade"}, {"Connection\t", "Upgrade"}, {" Connection", "Upgrade"}, {"connection", "upgrade"}, {"CONNECTION", "UPGRADE"}, {"cOnNeCtIoN", "uPgRaDe"},
+		{"Connection", " \t Upgrade \t "}, {"Connection", ""}, {"Connection", "Upgrade\r"}, {"Connection", "Upgrade\x00"}, {"Connection", "Upgrade, \xff"}, {"Connection", "\xc5\xbfupgrade"},
+		{"X-A", "1\r\nConnection: Upgrade"}, {"X-A", "1\nConnection: Upgrade"}, {"X-A", "1\r\nConnection:Upgrade"}, {"X-A", "1\r\nconnection:\tupgrade "}, {"X-A", "1\r\nConnection Upgrade"},
+		{"X-Nul", "a\x00b"}, {"X-Del", "a\x7fb"}, {"X-\xc3\x89", "1"}, {"", "v"}, {"X-NoColon\r\nbroken", "v"}, {"X(a)", "v"}, {"X-A", "\xff\xfe"}, {"X-A", "a\r\n \r\n"},
+		{"Connection", "close\r\nConnection: Upgrade"}, {"Connection", "Upgrade\r\n\r\nX-After: 1"},
+	}
+	for _, irr := range wireIrregular {
+		disp("GET", "", append([][2]string{irr, {"Upgrade", "websocket"}}, hs[2:]...))
+		disp("GET", "", append(append([][2]string{{"Upgrade", "websocket"}}, hs[2:]...), irr))
+		disp("GET", "", append(append([][2]string{}, hs...), [2]string{strings.Replace(irr[0], "onnection", "ec-WebSocket-Protocol", 1), strings.NewReplacer("Upgrade", "grpc-websockets", "upgrade", "GRPC-websockets").Replace(irr[1])}))
+		disp("POST", "", [][2]string{{"Content-Type", "application/grpc-web"}, irr})
 	}
 	nRawMdq, nRawDisp := 3000, 120
 	if tier == "thorough" {
